@@ -41,7 +41,7 @@ const PROGS: &[Prog] = &[
     Prog { name: "ok-cond", files: &[("main.rssl", "#define A 2\n#if A > 1 && defined(A)\nint x = 1;\n#elif A == 1\nint x = 2;\n#else\nint x = 3;\n#endif\n#ifndef B\nint y = x < 3 ? 1 : 0;\n#endif\n")] },
     Prog { name: "ok-include", files: &[("main.rssl", "#include \"a.h\"\nint f() { return A + g(2); }\n#include \"a.h\"\n"), ("a.h", "#pragma once\n#define A 7\nint g(int v) { return v << 1; }\n")] },
     Prog { name: "ok-template", files: &[("main.rssl", "template<typename T> T twice(T v) { return v + v; }\nfloat a() { return twice<float>(1.0) + twice(2); }\nvector<float, 3> q;\nbool lt(int a, int b) { return a < b; }\n")] },
-    Prog { name: "ok-member", files: &[("main.rssl", "struct P { float3 v; int n[2]; float len() { return v.x + this.v.y; } };\nStructuredBuffer<P> ps;\nfloat f(P p, uint i) { return p.v.zyx.x + ps[i].v.y + p.len() + ps.Load(i).n[1] + 2.5.x + 1.0f.xx.y; }\n")] },
+    Prog { name: "ok-member", files: &[("main.rssl", "struct P { float3 v; int n[2]; float len() { return v.x + v.y; } };\nStructuredBuffer<P> ps;\nfloat f(P p, uint i) { return p.v.zyx.x + ps[i].v.y + p.len() + ps.Load(i).n[1] + 2.5.x + 1.0f.xx.y; }\n")] },
     Prog { name: "ok-int-swizzle", files: &[("main.rssl", "float2 f() { return 1.xx; }\n")] },
     Prog { name: "err-undeclared", files: &[("main.rssl", "void f() {\n  int x = 1;\n  int z = x + yy;\n}\n")] },
     Prog { name: "err-type", files: &[("main.rssl", "struct S { int a; };\nvoid f() {\n  S s;\n  float3 v = s;\n}\n")] },
@@ -56,11 +56,23 @@ const PROGS: &[Prog] = &[
     Prog { name: "err-in-macro", files: &[("main.rssl", "#define BAD(v) (v + undeclared_name)\nint f(int q) {\n  return BAD(q);\n}\n")] },
     Prog { name: "err-in-paste", files: &[("main.rssl", "#define CAT(a, b) a ## b\nint f() {\n  return CAT(un, known);\n}\n")] },
     Prog { name: "err-in-include", files: &[("main.rssl", "int a;\n#include \"b.h\"\nint c;\n"), ("b.h", "int ok;\n\nint bad = nope;\n")] },
+    Prog { name: "err-lex-in-include", files: &[("main.rssl", "int a;\n#include \"b.h\"\nint c;\n"), ("b.h", "int ok;\nstatic const float bias = 0.5q;\n")] },
+    Prog { name: "err-string-in-include", files: &[("main.rssl", "int a;\n#include \"b.h\"\n"), ("b.h", "int ok;\n\nint b; \"unterminated\nint c;\n")] },
+    Prog { name: "err-char-in-nested-include", files: &[("main.rssl", "#include \"b.h\"\n"), ("b.h", "int x;\n#include \"c.h\"\n"), ("c.h", "\n\n  int y = 1 @ 2;\n")] },
     Prog { name: "err-after-include", files: &[("main.rssl", "#include \"b.h\"\nint c = ok;\nint d = nope;\n"), ("b.h", "int ok;\n")] },
     Prog { name: "err-nested-include", files: &[("main.rssl", "#include \"b.h\"\n"), ("b.h", "int x;\n#include \"c.h\"\n"), ("c.h", "\n\n  float y = x.q.r;\n")] },
     Prog { name: "err-missing-include", files: &[("main.rssl", "int a;\n#include \"zzz.h\"\n")] },
     Prog { name: "err-call", files: &[("main.rssl", "int g(int a) { return a; }\nint f() {\n  return g(1,\n           2);\n}\n")] },
     Prog { name: "err-redefine", files: &[("main.rssl", "int a;\nfloat b;\nint a;\n")] },
+];
+
+/// where the first diagnostic of a rejected program has to point: (program, file, line), read off the program texts
+/// above ("a diagnostic for text inside an included file names that file and the line within it")
+const EXPECT: &[(&str, &str, u32)] = &[
+    ("err-undeclared", "main.rssl", 3), ("err-type", "main.rssl", 4), ("err-parse", "main.rssl", 2), ("err-parse2", "main.rssl", 2), ("err-lex", "main.rssl", 2),
+    ("err-string", "main.rssl", 2), ("err-directive", "main.rssl", 3), ("err-in-macro", "main.rssl", 1), ("err-in-include", "b.h", 3), ("err-lex-in-include", "b.h", 2),
+    ("err-string-in-include", "b.h", 3), ("err-char-in-nested-include", "c.h", 3), ("err-after-include", "main.rssl", 3), ("err-nested-include", "c.h", 3),
+    ("err-missing-include", "main.rssl", 2), ("err-call", "main.rssl", 3), ("err-redefine", "main.rssl", 3),
 ];
 
 fn prog(name: &str) -> Option<&'static Prog> { PROGS.iter().find(|p| p.name == name) }
@@ -252,6 +264,13 @@ fn run_k(name: &str, k: usize, mode: &str) -> String {
     // an #include line is not shifted relative to its own file's inserted lines: every file got k lines, so every line moves by k
     for (a, b) in p1.iter().zip(p2.iter()) {
         if a.0 != b.0 || a.1 + k as u32 != b.1 || a.2 != b.2 { return format!("DIFF position {}:{}:{} -> {}:{}:{} (k={})", a.0, a.1, a.2, b.0, b.1, b.2, k); }
+    }
+    if let Some((_, f, l)) = EXPECT.iter().find(|(n, _, _)| *n == name) {
+        match p1.first() {
+            Some(a) if a.0 == *f && a.1 == *l => {}
+            Some(a) => return format!("DIFF the diagnostic points at {}:{}:{}, the faulty text is in {} line {}", a.0, a.1, a.2, f, l),
+            None => return format!("DIFF the diagnostic has no position, the faulty text is in {} line {}", f, l),
+        }
     }
     if p1.is_empty() { "SAME ERR-NOPOS".into() } else { format!("SAME ERR {}:{}:{}", p1[0].0, p1[0].1, p1[0].2) }
 }
